@@ -27,7 +27,7 @@ class LU(Lin):
         k = (f'{tt} A(a), L, U; {pdecl} lu<LUCompType::{strat}>(A,L,U{",P" if piv else ""}); ' + copy_out('L', 'l', n * n) + ' ' + copy_out('U', 'u', n * n) + ' ' + pcopy + ' ' + rc)
         Lin.__init__(s, f'lu_{SHORT[T]}_{n}_{strat}{penc or ""}{"_rec" if recon else ""}', T, args, k, f'lu<{strat}> {tt}' + (' + reconstruct' if recon else ''))
         s.n = n; s.piv = piv; s.penc = penc; s.recon = recon; s.structure_only = structure_only
-        if structure_only: s.id += '_struct'; s.budget = 600; s.nameall = False
+        if structure_only: s.id += '_struct'; s.budget = 900; s.nameall = False; s.weight = 100
         if piv: s.max_paths = 80
 
     def path_obligations(s, mod, kp, stats):
